@@ -27,7 +27,15 @@ const verif::Info verif_info = {
     "contains <=> find >= 0; starts_with/ends_with by direct comparison (true for empty/null text); const char* forms are compared on "
     "the needle truncated at its first NUL, all other forms on the full bytes. Non-trivial: in either case mode the needle occurs >= 2 "
     "times, or two occurrences overlap, or a first-byte hit fails later, or an occurrence straddles start or limit, or a proper prefix of "
-    "the needle runs past the end of the haystack.",
+    "the needle runs past the end of the haystack. Extension: every case also runs ALL char8_t overloads (find/find_last/contains with (pointer,length) and C string, starts_with/ends_with) against the same "
+    "model as their const char* siblings, and every overload in the default case mode; new needle kinds: a lone lead byte / the head of a multi-byte character cut short / continuation bytes only (not well-formed UTF-8 "
+    "on their own). Long haystacks (first byte FE: 41..8192 bytes; F9..FC: 8..48 KB; FD: directed, explicit content): periodic background (period 1..8 over {a b A B c NUL e-acute euro z Z @ [ `}), needle of 2..3000 bytes "
+    "(lengths 17, 31/32/33, 63/64/65, 127/128, 255/256/257, 511/512, 1023/1024/1025, 1500, 2047/2048, 3000 or drawn) that is a chunk of the background with one foreign breaker byte late or early (a partial match at every period, "
+    "overlapping the real match), a foreign text (optionally with an embedded NUL), or a pure chunk (dense overlapping occurrences; <= 300 in <= 1200 bytes), planted 0..3 times: exactly at the end, at 0, anywhere, one before the end, with "
+    "0..len of its bytes before the edge of block 1..3 of 64/256/1024/4096/16384/16386 bytes counted from the start or from the END, adjacent to / overlapping the previous plant, as a near miss, case-flipped; start in {0, first occurrence -1/+0/+1, "
+    "last occurrence, size-len, drawn, size-1, size, size+1, SIZE_MAX}, limit in {SIZE_MAX, last occurrence + len (just fits) / + len-1 / + any offset inside it / + 0, size, drawn, size-1, size+1, 0}. The model for long cases is the list of all occurrences "
+    "(one naive pass per needle view and case mode); haystacks above 8 KB run a rotating selection of the overloads. Enumerated: for needles of 17..3000 bytes EVERY offset of start inside the first and of limit inside the last occurrence (the last one exactly at the end), "
+    "sparse and dense layouts; and 49152/40001-byte haystacks whose only/last occurrence of a 2/3/4-byte character, a 2-byte and an 18-byte needle straddles a 4096/16384/16386-byte block edge counted from either end at every split.",
     true, "exploration"};
 
 namespace {
@@ -419,7 +427,10 @@ void gen_long(verif::Reader &r, bool big, SearchCase &k, Case &c) {
         const size_t P2 = 1 + r.idx(7);
         uint8_t fp[7];
         for (size_t i = 0; i < P2; i++) fp[i] = r.pick(FB);
-        for (size_t i = 0; i < nl; i++) N[i] = (char)fp[i % P2];
+        // the first byte occurs (in either case) nowhere else in the needle: a start inside a planted copy then costs nothing extra
+        // (a periodic needle would make every call quadratic in its length - a resource bound, not a verdict)
+        N[0] = (char)fp[0];
+        for (size_t i = 1; i < nl; i++) { uint8_t b = P2 > 1 ? fp[1 + i % (P2 - 1)] : 'w'; if (ref::fold(b) == ref::fold(fp[0])) b = 'k'; N[i] = (char)b; }
         if (r.chance(40)) N[r.idx(nl)] = '\0';                                   // C string forms then see a shorter needle
     } else {
         for (size_t i = 0; i < nl; i++) N[i] = (char)pat[(phase + i) % P];
@@ -703,6 +714,8 @@ long verif_enumerate(int shard, int nshards, int tier, verif::EnumReport &r) {
                 k.hay.resize(H); k.needle.resize(nl);
                 for (size_t i = 0; i < H; i++) k.hay[i] = layout ? BG1[i % sizeof BG1] : BG0[i % sizeof BG0];
                 for (size_t i = 0; i < nl; i++) k.needle[i] = layout ? ND1[i % sizeof ND1] : ND0[i % sizeof ND0];
+                // 'x' / 'X' only at the front: a start inside a planted copy must not make every call quadratic in the needle length
+                for (size_t i = 1; i < nl; i++) if (k.needle[i] == 'x' || k.needle[i] == 'X') k.needle[i] = (i % 3) ? 'k' : 'K';
                 first = layout ? 7 : 100; last = H - nl;
                 k.hay.replace(first, nl, k.needle); k.hay.replace(last, nl, k.needle);
                 if (layout) k.hay.replace(first + nl + 20, nl, gen::flip_case(k.needle, 0x5A5A5A5Bu));
